@@ -162,6 +162,7 @@ type NodeParams struct {
 	MaxDelay  time.Duration
 	Neighbors func(senderID string, node *jobpb.NodeIdentity) proto.Operator
 	RealTimer bool
+	Logger    *slog.Logger // nil: discard
 }
 
 // StartNode creates and starts an operator (not yet deployed).
@@ -178,6 +179,9 @@ func StartNode(p NodeParams) *Node {
 	n.Op = operator.NewOperator(operator.NewOperatorParams{ID: p.ID, Host: "host-" + p.ID, Job: reg, UserHandler: p.Handler,
 		EventBatching: bp, Clock: clocks.NewFrozenClock(), NeighborOperatorFactory: p.Neighbors})
 	n.Op.Logger = QuietLog
+	if p.Logger != nil {
+		n.Op.Logger = p.Logger
+	}
 	ctx, cancel := context.WithCancel(context.Background())
 	n.cancel = cancel
 	go func() { n.done <- n.Op.Start(ctx) }()
